@@ -18,7 +18,7 @@ sys.path.insert(0, os.path.join(HERE, "..", "bytesym"))
 import vcommon as V
 from vcommon import log
 import z3
-import core, ref, driver as D, gen01, gen15, gen07, gen12, gen08
+import core, ref, driver as D, gen01, gen15, gen07, gen12, gen08, gen13
 
 LIMITS = {"timeout_ms": 4000, "max_steps": 6000, "max_paths": 160, "max_depth": 10, "budget_s": 90}
 G = {}
@@ -35,7 +35,7 @@ def build_cli(scratch):
 
 
 def family(prop):
-    return {"C01": gen01, "C15": gen15, "C07": gen07, "C12": gen12, "C08": gen08}[prop]
+    return {"C01": gen01, "C15": gen15, "C07": gen07, "C12": gen12, "C08": gen08, "C13": gen13}[prop]
 
 
 def path_models(paths, nin, limit):
@@ -168,6 +168,8 @@ def select(prop, tier):
         return gen12.select(tier, V.seed())
     if prop == "C08":
         return gen08.select(tier, V.seed())
+    if prop == "C13":
+        return gen13.select(tier, V.seed())
     if prop == "C01":
         if tier == "quick":
             return gen01.select([(1, None), (2, 1100), (3, 200)], V.seed(), deep=80)
